@@ -153,7 +153,7 @@ class State:
         self.x.feas_secs += time.time() - t
         return r != z3.unsat
 
-    def unique_value(self, e, force=False):
+    def unique_value(self, e, force=False, light=False):
         """if the z3 Int expression e can only take one value on this path, return it (else None)"""
         e = simp(e)
         if z3.is_int_value(e):
@@ -169,7 +169,7 @@ class State:
                 break
         if not pinned and not force:
             return None
-        if force:
+        if force and light:
             # cheap first: a solver that sees only the small conjuncts of the path condition (the big ones carry
             # sequence facts that can make a check slow), asked about each integer literal they mention
             small, cands = [], []
@@ -195,7 +195,10 @@ class State:
                 s_ = z3.Solver()
                 s_.set('timeout', 2000)
                 s_.add(*small)
+                t_end = time.time() + 6
                 for k_ in sorted(cands, key=lambda v_: (v_ < 0, v_ > 255, v_ < 2))[:80]:
+                    if time.time() > t_end:
+                        break
                     s_.push()
                     s_.add(e != k_)
                     r_ = guarded_check(s_, 2000)
